@@ -81,12 +81,33 @@ impl Model for M {
 
 pub fn run(env: &Env) {
     let seed = env.ctx.seed;
-    env.ctx.set_rule("stateright BFS to fixpoint over the real update_signature: state = (message vector in V^L, signature bytes), |V| = 3 (empty, 1 byte, 300 bytes), actions = update(i, v) for every i < L and v in V (includes no-op updates and updates to a value used elsewhere); L in {1,2,3} (thorough + 4), both suites, header in {none, 16B}; six invariants on every state: update succeeds; verify(sig, vector) = Ok; sig = reference formula B(vector)/(sk+e) with the original e (path independence); verify(sig, w) = Err for every other w in V^L; positions L, L+1, 2^32, usize::MAX refused; wrong-old-value updates never verify for the intended vector. The graph closes at |V|^L states, so histories of EVERY length are covered; plus one explicit 32-step chain per configuration. transitions = states x L x |V| real update calls (plus the calls made by the invariants).");
+    env.ctx.set_rule("stateright BFS to fixpoint over the real update_signature: state = (message vector in V^L, signature bytes), |V| = 3 (empty, 1 byte, 300 bytes), actions = update(i, v) for every i < L and v in V (includes no-op updates and updates to a value used elsewhere); L in {1,2,3} (thorough + 4), both suites, header in {none, 16B}; six invariants on every state: update succeeds; verify(sig, vector) = Ok; sig = reference formula B(vector)/(sk+e) with the original e (path independence); verify(sig, w) = Err for every other w in V^L; positions L, L+1, 2^32, usize::MAX refused; wrong-old-value updates never verify for the intended vector. The graph closes at |V|^L states, so histories of EVERY length are covered; plus one explicit 32-step chain per configuration, plus ALL ordered triples of updates over {suite} x {position} interleaved on one thread, each compared with the reference formula. transitions = states x L x |V| real update calls (plus the calls made by the invariants).");
     env.ctx.assume("stateright 0.31 explicit-state checker; the transition function is the real (deterministic) update_signature");
     let values: Vec<Vec<u8>> = vec![vec![], vec![0x01], mccore::fill(seed, "c12-long", 300)];
     let maxl = if env.thorough() { 4 } else { 3 };
     let mut jobs: Vec<(String, Suite, String, Option<Vec<u8>>, usize)> = Vec::new();
     for s in suites() { for (hn, h) in [hdr_small(seed)[0].clone(), hdr_small(seed)[2].clone()] { for l in (1..=maxl).rev() { jobs.push((format!("{}/h={}/L{}", s.name(), hn, l), s, hn.clone(), h.clone(), l)); } } }
+    // interleavings across configurations on ONE thread: all ordered triples over {suite} x {position}: hidden per-thread
+    // state shared between ciphersuites or positions (a generator memo keyed on the position only) shows here
+    if env.want("interleaved") {
+        let letters: Vec<(Suite, usize)> = suites().into_iter().flat_map(|s| (0..3usize).map(move |i| (s, i))).collect();
+        let l = 3usize;
+        let setup: Vec<(Suite, Key, Vec<u8>)> = suites().into_iter().map(|s| { let k = key(s, "k1"); let sk = refbbs::octets_to_scalar_strict(&k.sk).unwrap(); let sig = refbbs::sign(s, &sk, &k.pk.clone().try_into().unwrap(), b"il", &vec![values[0].clone(); l]).unwrap().to_vec(); (s, k, sig) }).collect();
+        for t in mccore::tuples(letters.len(), 3) {
+            env.ctx.state(&[b"interleaved", &t.iter().map(|&x| x as u8).collect::<Vec<u8>>()]);
+            for &li in &t {
+                let (s, i) = letters[li];
+                let (_, k, sig) = setup.iter().find(|x| x.0 == s).unwrap();
+                let got = z(s).update_signature(&k.sk, sig, &values[0], &values[1], i, l); env.ctx.step();
+                let want = refbbs::update_signature(s, &refbbs::octets_to_scalar_strict(&k.sk).unwrap(), sig, &values[0], &values[1], i, l).map(|x| x.to_vec());
+                if got.clone().ok() != want.clone().ok() {
+                    env.ctx.violation("C12:interleaved-suites-and-positions", &format!("update_signature({}, position {}) differs from the reference formula after the interleaving {:?}: {}", s.name(), i, t.iter().map(|&x| format!("{}@{}", letters[x].0.name(), letters[x].1)).collect::<Vec<_>>(), got.describe()), env.case("interleaved", json!({"sequence": t.iter().map(|&x| format!("{}@{}", letters[x].0.name(), letters[x].1)).collect::<Vec<_>>()})));
+                }
+            }
+            env.ctx.class("interleaved"); env.ctx.trace();
+        }
+    }
+    crate::hist::explore_families(env, &['U'], "update histories");
     mccore::par_for(&jobs, |_, (id, s, hn, h, l)| {
         let (s, l) = (*s, *l);
         if !env.want(id) || env.ctx.out_of_time() { return; }
